@@ -1278,6 +1278,8 @@ func specStringWithPrefix(msg any, prefix string) bool {
 // A deferred native function runs when the deferring function returns (the
 // machine is at OpReturn): what it panics with is what a direct native call
 // panics with - a Fatal stays the Fatal, any other value is a program panic.
+// The same holds for the methods of a shown value (String, HTML, ...), which
+// are native code running under OpShow.
 func specPlainPanicValue(msg any) bool {
 	_, isStr := msg.(string)
 	return isStr
@@ -1287,6 +1289,8 @@ func specPlainPanicValue(msg any) bool {
 //@   props X00 C12 C13 C05
 //@   ensures[C05] specPlainPanicValue(msg) && old(vm.fn.Body[vm.pc-1].Op) == OpReturn ==> specIsPanicErr(result)
 //@   ensures[C12] specIsFatal(msg) && old(vm.fn.Body[vm.pc-1].Op) == OpReturn ==> result == msg
+//@   ensures[C05] specPlainPanicValue(msg) && old(vm.fn.Body[vm.pc-1].Op) == OpShow ==> specIsPanicErr(result)
+//@   ensures[C12] specIsFatal(msg) && old(vm.fn.Body[vm.pc-1].Op) == OpShow ==> result == msg
 //@   ensures[C05] specRuntimeErrText(msg, "send on closed channel") && old(vm.fn.Body[vm.pc-1].Op) == OpSelect ==> specIsPanicErr(result)
 //@   ensures[C05] specRuntimeErrText(msg, "makechan: size out of range") && (old(vm.fn.Body[vm.pc-1].Op) == OpMakeChan || old(vm.fn.Body[vm.pc-1].Op) == -OpMakeChan) ==> specIsPanicErr(result)
 //@   ensures[C05] specRuntimeErrText(msg, "runtime: allocation size out of range") && old(vm.fn.Body[vm.pc-1].Op) == OpMakeSlice ==> specIsPanicErr(result)
